@@ -132,6 +132,12 @@ def run(ctx):
             sh = gen.shape(rng, rank=rng.randrange(1, 5), hi=9)
             rec = {"type": kind, "kwargs": [[f"{key}_type", gen.shape_arg(rng, sh, key)]]}
             one(rec, sh, sh, kind)
+        # axis lengths past 32 bits (legal: no tensor is allocated for a port) keep their value through every form
+        for _ in range(ctx.n(10, 40)):
+            sh = gen.shape(rng, rank=rng.randrange(1, 4), hi=9)
+            sh[rng.randrange(len(sh))] = rng.choice([2 ** 31, 2 ** 31 + 5, 2 ** 32, 2 ** 40 + 3, 2 ** 62, 2 ** 31 - 1])
+            rec = {"type": kind, "kwargs": [[f"{key}_type", gen.shape_arg(rng, sh, key)]]}
+            one(rec, sh, sh, kind + "_huge_axis")
         # the shape of a scalar signal (rank 0), as an element-wise node of rank 0 declares it: an empty integer array
         for dt in ("<i8", "<i4"):
             empty = {"a": dt, "sh": [0], "x": ""}
